@@ -305,12 +305,22 @@ Qed.
 (* an IPv4 address given as prefix (is_valid_ipv4 says yes, strictly and loosely) *)
 Theorem ipv4_prefix_rejected mac net :
   exists e, get_ipv6_addr_by_EUI64 true true true mac net = Exn e /\ is_VE_TE e.
-Proof. eexists. split; [vm_compute; reflexivity|vm_compute; auto]. Qed.
+Proof.
+  unfold get_ipv6_addr_by_EUI64.
+  destruct (run_guards true true true gen_eui64_prechecks) as [g|] eqn:G.
+  - exists g. split; [reflexivity|]. eapply guards_classes; exact G.
+  - exfalso. vm_compute in G. discriminate.
+Qed.
 
 (* a prefix that is not a str *)
 Theorem nonstr_prefix_rejected v4l v4s mac net :
   exists e, get_ipv6_addr_by_EUI64 false v4l v4s mac net = Exn e /\ is_VE_TE e.
-Proof. destruct v4l, v4s; eexists; (split; [vm_compute; reflexivity|vm_compute; auto]). Qed.
+Proof.
+  unfold get_ipv6_addr_by_EUI64.
+  destruct (run_guards false v4l v4s gen_eui64_prechecks) as [g|] eqn:G.
+  - exists g. split; [reflexivity|]. eapply guards_classes; exact G.
+  - exfalso. destruct v4l, v4s; vm_compute in G; discriminate.
+Qed.
 
 (* a MAC or a prefix netaddr refuses (with ValueError, AddrFormatError or TypeError) *)
 Theorem bad_mac_rejected is_str v4l v4s e net : lib_class e = true ->
@@ -347,3 +357,16 @@ Proof.
     destruct ((2 ^ 32 - 1 <? _) && (_ <=? 2 ^ 128 - 1)); [discriminate|].
     intros H. inversion H. apply handle_classes. reflexivity.
 Qed.
+
+Example ex_lib_class : lib_class LAddrFormatError = true /\ lib_class LValueError = true /\ lib_class LTypeError = true.
+Proof. repeat split. Qed.
+Example ex_bad_mac : get_ipv6_addr_by_EUI64 true false false (LExn LAddrFormatError) (LOk 0) = Exn ValueError.
+Proof. vm_compute. reflexivity. Qed.
+Example ex_bad_mac_type : get_ipv6_addr_by_EUI64 true false false (LExn LTypeError) (LOk 0) = Exn TypeError.
+Proof. vm_compute. reflexivity. Qed.
+(* 00:16:3e:33:44:55 on 2001:db8::/64 -> 2001:db8::216:3eff:fe33:4455, and back *)
+Example ex_eui64_doc :
+  get_ipv6_addr_by_EUI64 true false false (LOk (EUI48 0x00163e334455)) (LOk (0x20010db8 * 2 ^ 96))
+    = Ok (6, 0x20010db80000000002163efffe334455) /\
+  get_mac_addr_by_ipv6 6 0x20010db80000000002163efffe334455 = LOk (EUI48 0x00163e334455).
+Proof. split; vm_compute; reflexivity. Qed.
